@@ -454,6 +454,38 @@ func runVecHistory(r *rand.Rand, p vecParams, o vecHistOpts, t *Trace) *Case {
 				}
 			})
 			t.Stat("vec.search")
+			if code == 0 && !pan && r.Intn(5) == 0 {
+				// the SAME builder executed again (a search is pure: it must answer as before), and once
+				// more after changing one option on it (sweeping nprobes / k on one builder is natural use)
+				res2, e2 := s.Execute()
+				out2 := make([][2]uint64, len(res2))
+				for i, x := range res2 {
+					out2[i] = [2]uint64{uint64(x.Node.ID()), bits32(x.Score)}
+				}
+				code2 := errCode(e2)
+				ops = append(ops, func(c *Case) {
+					c.N(4).Vecs(qs).U32s(nodes).U32s(docids).N(k).F32(thr).N(aggz).N(cutoff).N(np)
+					c.N(code2).Pairs(out2)
+				})
+				np3 := []int{-1, 1, p.nlist, 2}[r.Intn(4)]
+				k3 := []int{0, 1, len(resident) + 1, 3}[r.Intn(4)]
+				var res3 []comet.VectorResult
+				var e3 error
+				pan3 := catchPanic(func() { res3, e3 = s.WithNProbes(np3).WithK(k3).Execute() })
+				out3 := make([][2]uint64, len(res3))
+				for i, x := range res3 {
+					out3[i] = [2]uint64{uint64(x.Node.ID()), bits32(x.Score)}
+				}
+				code3 := errCode(e3)
+				if pan3 {
+					code3 = 12
+				}
+				ops = append(ops, func(c *Case) {
+					c.N(4).Vecs(qs).U32s(nodes).U32s(docids).N(k3).F32(thr).N(aggz).N(cutoff).N(np3)
+					c.N(code3).Pairs(out3)
+				})
+				t.Stat("vec.search_builder_reused")
+			}
 			if code != 0 {
 				t.Stat("vec.search_error")
 			} else {
